@@ -160,6 +160,50 @@ CHECKS.update({
              "for point evaluations."),
 })
 
+CHECKS.update({
+    "C06": dict(
+        technique="TLA+ spec LossWiring (wirings, registers, recipes) checked exhaustively by TLC; TLC-generated behaviours "
+                  "(scripted family over every wiring + simulation) replayed into real loss objects against reference "
+                  "trajectories of the specification's ODE",
+        level="model_checking",
+        text="TLC enumerates every ordered selection of observed states, target parameters, target states and weight shape "
+             "(16128 wirings for 3x3) with the register laws and the recipes row i <-> time i, column j <-> j-th named state, "
+             "source of each weight / spread value.  For every wiring of several sizes TLC emits the script cost(v); "
+             "residual(); costIV(v+x); cost(); residual(v); residualIV(); costIV(x only); cost() with the registers each call "
+             "must use; simulation adds random histories.  Each behaviour is performed on a real loss object (five classes, "
+             "spreads and weights in every accepted shape) and compared with the class's reference kernel on the reference "
+             "trajectory; square-loss cost at the generating parameters is bounded separately.",
+        design="5 C06, 3.9, 4.3",
+        note="Trusted base: scipy DOP853 on the specification's right-hand side; scipy.stats log densities; tolerance 1e-6 "
+             "relative to the sum of |cell losses|.  Poisson / Gamma / NegBinom are used where the clean trajectory stays "
+             "above 5% of its scale."),
+    "C07": dict(
+        technique="TLA+ spec LossWiring + SensLayout: column selection = recipe checked by TLC (negative control: sorted "
+                  "columns); TLC-generated behaviours replayed; expected gradient = LossKernel D1 normal forms x reference "
+                  "sensitivities named by the recipe",
+        level="model_checking",
+        text="InvColumnsP / InvColumnsIV: the columns the implementation selects carry, for the k-th free variable in SUPPLIED "
+             "order and the j-th named state, the sensitivity symbol of SensLayout.  Script sensitivity(v); jac(); "
+             "sensitivityIV(v+x); jacIV(); gradient(); jac(v); sensitivityIV(x only); sensitivity() on every wiring + simulated "
+             "histories; every gradient entry, jac / jacIV column is compared with the chain rule through the specification's "
+             "kernel derivative and the reference solution of the specification's augmented systems.",
+        design="5 C07, 3.9, 3.5",
+        note="Tolerance 1e-5 relative to the sum of |terms| + 1e-8; non-unit weights only for square / normal loss (as the "
+             "property states)."),
+    "C20": dict(
+        technique="TLA+ spec LossWiring + SensLayout.AugFF (second-order system = total theta-derivative of the first-order "
+                  "system, symmetry checked by TLC); TLC-generated behaviours replayed; known-finding classification by the "
+                  "specification's GradJac / parameter-Hessian normal forms",
+        level="model_checking",
+        text="jtj = sum over cells of w^2 s_k s_l with reference sensitivities named by the recipe, symmetric, PSD.  hessian "
+             "(square loss, unit weights) = 2 jtj + sum over cells D1 . h_kl with reference second-order sensitivities; half of "
+             "the hessian cases use additive-parameter models where the specification shows that the mixed terms vanish "
+             "identically, so the known omission cannot explain a mismatch.",
+        design="5 C20, 3.9",
+        note="Known finding D9 (mixed state-parameter terms omitted) is keyed by 'mixed-terms-present' as decided from the "
+             "specification's normal forms; any mismatch where they vanish, and any jtj mismatch, is a violation."),
+})
+
 NOT_APPLICABLE = {
     "C14": "stateless real-valued kernels (log/lgamma): no transitions or histories for a TLA+ model to decide; "
            "the decisive comparison is floating-point agreement with reference densities, a different technique "
